@@ -52,7 +52,7 @@ Proof.
   - destruct (holds s t) eqn:Hh; [|discriminate]. inversion H; subst; clear H.
     destruct (holds_inv s t I Hh) as (G & M).
     unfold LInv, w_obsolete; cbn. rewrite G, remove_tid_single. split; [lia|]. left. auto.
-  - destruct (holds s t && (i <? length (lmem s))%nat); inversion H; subst. exact I.
+  - destruct ((holds s t || w_is_obsolete (lw s)) && (i <? length (lmem s))%nat); inversion H; subst. exact I.
   - destruct (nth_error (lmem s) i); [|discriminate]. destruct (x =? z); inversion H; subst; exact I.
 Qed.
 
@@ -75,7 +75,7 @@ Qed.
 
 (** ** The word only moves forward, and obsolete is final *)
 Lemma lstep_mono s e s' : LInv s -> lstep s e = Some s' ->
-  (lw s = 1 -> s' = s) /\ (lw s <> 1 -> lw s' = 1 \/ lw s <= lw s').
+  (lw s = 1 -> lw s' = 1 /\ guards s' = guards s) /\ (lw s <> 1 -> lw s' = 1 \/ lw s <= lw s').
 Proof.
   intros I H. destruct e as [t obs|t|t v obs|t v ok|t neww|t|t i x|t i x]; cbn in H.
   - destruct (obs =? lw s); inversion H; subst; split; auto; right; lia.
@@ -93,15 +93,13 @@ Proof.
   - destruct (holds s t) eqn:Hh; [|discriminate]. inversion H; subst; clear H.
     destruct (holds_inv s t I Hh) as (G & M). cbn.
     split; [intros W; rewrite W in M; cbn in M; discriminate|left; reflexivity].
-  - destruct (holds s t) eqn:Hh; cbn in H; [|discriminate].
-    destruct (i <? length (lmem s))%nat; inversion H; subst; clear H.
-    destruct (holds_inv s t I Hh) as (G & M). cbn.
-    split; [intros W; rewrite W in M; cbn in M; discriminate|right; lia].
+  - destruct ((holds s t || w_is_obsolete (lw s)) && (i <? length (lmem s))%nat); inversion H; subst; clear H. cbn.
+    split; [auto|right; lia].
   - destruct (nth_error (lmem s) i); [|discriminate]. destruct (x =? z); inversion H; subst; split; auto; right; lia.
 Qed.
 
 Lemma lrun_mono s tr s' : LInv s -> lrun s tr = Some s' ->
-  (lw s = 1 -> s' = s) /\ (lw s <> 1 -> lw s' = 1 \/ lw s <= lw s').
+  (lw s = 1 -> lw s' = 1 /\ guards s' = guards s) /\ (lw s <> 1 -> lw s' = 1 \/ lw s <= lw s').
 Proof.
   revert s; induction tr as [|e tr IH]; intros s I H; cbn in H.
   - inversion H; subst. split; auto. right; lia.
@@ -109,16 +107,16 @@ Proof.
     pose proof (lstep_inv _ _ _ I E) as I1.
     destruct (lstep_mono _ _ _ I E) as (A1 & A2). destruct (IH _ I1 H) as (B1 & B2).
     split.
-    + intros W. rewrite (A1 W) in *. now apply B1.
+    + intros W. destruct (A1 W) as (W1 & G1). destruct (B1 W1) as (W2 & G2). split; [exact W2|congruence].
     + intros W. destruct (A2 W) as [O|Le].
-      * left. now rewrite (B1 O).
-      * destruct (Z.eq_dec (lw s1) 1) as [O|N]; [left; now rewrite (B1 O)|].
+      * left. exact (proj1 (B1 O)).
+      * destruct (Z.eq_dec (lw s1) 1) as [O|N]; [left; exact (proj1 (B1 O))|].
         destruct (B2 N); [now left|right; lia].
 Qed.
 
 (** ** Validated read sections are snapshots *)
 Lemma lstep_unguarded s e s' : lstep s e = Some s' -> guards s = [] ->
-  s' = s \/ (exists t v, e = EUpgrade t v true /\ lw s' = lw s + 2).
+  s' = s \/ (exists t v, e = EUpgrade t v true /\ lw s' = lw s + 2) \/ lw s = 1.
 Proof.
   intros S G0. destruct e as [t obs|t|t v' obs|t v' ok|t neww|t|t i x|t i x]; cbn [lstep] in S.
   - destruct (obs =? lw s); inversion S; auto.
@@ -126,11 +124,13 @@ Proof.
   - destruct (obs =? lw s); inversion S; auto.
   - destruct (w_is_free v') eqn:F'; cbn [negb] in S; [|discriminate].
     destruct (v' =? lw s) eqn:E'; destruct ok; cbn [Bool.eqb] in S; try discriminate.
-    + right. exists t, v'. split; [reflexivity|]. inversion S; subst. cbn. apply Z.eqb_eq in E'. unfold w_set_locked. lia.
+    + right. left. exists t, v'. split; [reflexivity|]. inversion S; subst. cbn. apply Z.eqb_eq in E'. unfold w_set_locked. lia.
     + inversion S; auto.
   - unfold holds in S. rewrite G0 in S. cbn in S. discriminate.
   - unfold holds in S. rewrite G0 in S. cbn in S. discriminate.
-  - unfold holds in S. rewrite G0 in S. cbn in S. discriminate.
+  - unfold holds in S. rewrite G0 in S. cbn [existsb orb] in S.
+    destruct (w_is_obsolete (lw s)) eqn:O; cbn [andb] in S; [|discriminate].
+    right. right. unfold w_is_obsolete in O. now apply Z.eqb_eq in O.
   - destruct (nth_error (lmem s) i); [|discriminate]. destruct (x =? z); inversion S; auto.
 Qed.
 
@@ -143,13 +143,14 @@ Proof.
   - cbn [lrun] in H. destruct (lstep s0 e) as [s1|] eqn:S; [|discriminate].
     pose proof (free_inv s0 I ltac:(now rewrite W)) as G0.
     constructor; [repeat split; auto|].
-    destruct (lstep_unguarded _ _ _ S G0) as [Same|(t & v' & _ & Up)].
+    destruct (lstep_unguarded _ _ _ S G0) as [Same|[(t & v' & _ & Up)|Ob]].
     + subst s1. apply IH; auto.
     + exfalso. pose proof (lstep_inv _ _ _ I S) as I1.
       destruct (lrun_mono _ _ _ I1 H) as (_ & B).
       unfold w_is_free in F. apply Z.eqb_eq in F.
       assert (N1 : lw s1 <> 1) by (intros C; lia).
       destruct (B N1) as [O|Le]; lia.
+    + exfalso. rewrite Ob in W. subst v. cbn in F. discriminate.
 Qed.
 
 Theorem snapshot n p s0 m s2 v :
@@ -220,10 +221,11 @@ Qed.
 
 (** ** Obsolete is final *)
 Theorem obsolete_final n p s0 m s1 :
-  lrun (linit n) p = Some s0 -> lw s0 = 1 -> lrun s0 m = Some s1 -> s1 = s0.
+  lrun (linit n) p = Some s0 -> lw s0 = 1 -> lrun s0 m = Some s1 -> lw s1 = 1 /\ guards s1 = [].
 Proof.
   intros Hp W H. pose proof (lrun_inv _ _ _ (linit_inv n) Hp) as I.
-  now apply (proj1 (lrun_mono _ _ _ I H)).
+  destruct (proj1 (lrun_mono _ _ _ I H) W) as (W1 & G1). split; [exact W1|]. rewrite G1.
+  destruct I as (_ & [(G & _)|(t & G & M)]); [exact G|]. rewrite W in M. cbn in M. discriminate.
 Qed.
 
 (** after obsoletion no section can be opened, every open section fails its
@@ -234,8 +236,8 @@ Theorem obsolete_rejects n p s0 e s1 :
   | ERLock _ obs => rlock_opens obs = false /\ rlock_fails obs = true
   | ECheck _ v obs => w_is_free v = true -> check_ok v obs = false
   | EUpgrade _ _ ok => ok = false
-  | EWUnlock _ _ | EWObsolete _ | EStore _ _ _ => False
-  | ELoad _ _ _ | ESpin _ => True
+  | EWUnlock _ _ | EWObsolete _ => False
+  | EStore _ _ _ | ELoad _ _ _ | ESpin _ => True
   end.
 Proof.
   intros Hp W S. pose proof (lrun_inv _ _ _ (linit_inv n) Hp) as I.
@@ -248,7 +250,6 @@ Proof.
   - destruct (w_is_free v) eqn:F; cbn in S; [|discriminate].
     destruct ok; [|reflexivity]. exfalso. destruct (v =? lw s0) eqn:Q; cbn in S; [|discriminate].
     apply Z.eqb_eq in Q. rewrite W in Q. subst v. cbn in F. discriminate.
-  - unfold holds in S. rewrite G in S. cbn in S. discriminate.
   - unfold holds in S. rewrite G in S. cbn in S. discriminate.
   - unfold holds in S. rewrite G in S. cbn in S. discriminate.
 Qed.
@@ -280,7 +281,7 @@ Proof.
     + destruct (holds s t) eqn:Hh; [|discriminate]. inversion S; subst; clear S.
       destruct (holds_inv s t I Hh) as (G & M). rewrite G in *. cbn in IH. rewrite Nat.eqb_refl in IH. cbn in IH.
       unfold w_obsolete in IH. destruct I as (P & _). lia.
-    + destruct (holds s t && (i <? length (lmem s))%nat); inversion S; subst. cbn in IH. lia.
+    + destruct ((holds s t || w_is_obsolete (lw s)) && (i <? length (lmem s))%nat); inversion S; subst. cbn in IH. lia.
     + destruct (nth_error (lmem s) i); [|discriminate]. destruct (x =? z); inversion S; subst; lia.
 Qed.
 
